@@ -450,10 +450,19 @@ class BG:
                 tok = self.mkfs(idx, sorted(set(cols + [self.newcol(idx)])) if r.random() < 0.3 else cols)
             self.emit("bretainset %s %s %s" % (t.name, idx.name, tok))
             t.vals = {c: idx.vals[c] for c in cols}
-        elif k == "marsh":
-            self.emit("bmarsh %s %s" % (t.name, idx.name))
-        else:
-            self.emit("bstream %s %s" % (t.name, idx.name))
+        elif k in ("marsh", "stream"):
+            used = ""
+            if idx.fixed is None and r.random() < 0.5 and not self.av("reused_receiver"):
+                # a receiver that was used before: wider than the source, holding other columns, possibly negative values
+                u = self.g.fresh("u")
+                self.emit("bnew %s %s" % (u, "64" if idx.is64 else "32"))
+                cols = sorted(set([self.newcol(idx)] + self.subset(idx, 0.3, 0.9)[:4] + [r.choice([0, 1, 7, 1 << 33 if idx.is64 else 1 << 20])]))
+                for c in cols:
+                    v = r.choice([1000, 70000, (1 << 40) + 5, 3, 0] + ([] if (not idx.is64 and self.av("neg32")) else [-3, -70000]))
+                    self.emit("bset %s %d %d" % (u, c, v))
+                used = " " + u
+                self.g.count("copy:reused-receiver")
+            self.emit("%s %s %s%s" % ("bmarsh" if k == "marsh" else "bstream", t.name, idx.name, used))
         self.g.count("copy:" + k)
         self.emit("bdump %s" % t.name)
         if idx.is64 and k != "retainset":
